@@ -264,7 +264,7 @@ def run(ctx):
     from mc import pairs  # noqa: PLC0415
 
     ops = [["sml", d] for d in pair_ops.LEAVES[:2] + pair_ops.LEAVES[3:5] + pair_ops.TREES] + [["sml_text", "< L < U1 1 2 > < A \"x y\" > >"]]
-    pair_execs = pairs.run_part(ctx, ops, "C15", 2 if ctx.thorough else 1)
+    pair_execs = pairs.run_part(ctx, ops, "C15", 1)  # (two delays over these long operations cost more than the whole enumeration)
     ctx.run_cases(check_case, cases(ctx), "c15", chunk=16)
 
 
